@@ -6,6 +6,28 @@ props = [json.loads(l) for l in open(os.path.join(V, "properties.jsonl"))]
 
 BASE = "cd /repo && /venv/bin/python -m pytest -ra -q -p no:cacheprovider --timeout=900 --continue-on-collection-errors"
 
+# what the seeded rounds 2-4 added to each check (DESIGN.md 11.2), appended to the claim text
+EXTRA = {
+ "C01": "Generated descriptions vary the order of envelope members; a description the tree under test refuses is skipped and counted, never a crash.",
+ "C02": "Wire_MC also enumerates 48 union-typed atoms (hex texts that are valid under BOTH alternatives of suit-parameter-content / suit-cose-key-id); the grammar stream shuffles the envelope members.",
+ "C03": "The grammar stream (0..4 authentication blocks, shuffled envelope members) and generated shapes with varied member order are round-tripped too; the names-the-content conjunct compares in a canonical order of envelope members.",
+ "C04": "A recursive stream (omit patterns x algorithms) and a session stream (ONE Signer object across calls that name different KMS contexts holding the same key names) are judged by the same clauses.",
+ "C05": "Every third description is created again in the same process after all its files got other contents at the same paths; digests and file contents whose first / last byte is NUL, whitespace or 0xFF are found by search for every algorithm and form.",
+ "C06": "Encrypt_MC carries the Encryptor session (object lifetime, KMS context bound at initialisation, key named by (context, name)); its histories are replayed into real Encryptor objects; runs into an output directory that still holds the previous artifacts are judged as well.",
+ "C07": "Three entry points (library, image boot, ncs/build.py storage --soc); every fourth scenario starts with the output files already present (stale-output history).",
+ "C09": "Resolve.tla states how sign-script, kms-script, context, algorithm and action are resolved per node (own > inherited > NCS_SUIT_* > ZEPHYR_BASE); Resolve_MC checks the precedence invariants and its 15 552 (own settings x environment) scenarios are replayed with logging plug-in sign scripts (the call RecursiveSigner makes for a node carries every resolved setting).",
+ "C10": "The CLI stream includes from_envelope with 0..3 adjacent dependency envelopes, payloads with edge bytes at both ends and pre-existing output files.",
+ "C11": "Payloads with edge bytes at both ends; every fourth run starts with the output files already present.",
+ "C12": "Every fifth run starts with the output file already present (a refusal must not pass for an output).",
+ "C14": "Histories also run through cmd_encrypt.main and real CLI processes writing runs of identical firmware into ONE output directory.",
+ "C15": "The key is drawn by the tool, so the key space is reached by volume (DER x200 / x4000 pairs per type, special tails counted in the evidence); convert scenarios cover rows that end at / around the end of every key length and the remaining layout options (array type, length type with cast, header and footer file).",
+ "C16": "The CLI stream passes the partition address in decimal; every fourth scenario starts with both output files already present.",
+ "C17": "CutHead(node, major type, width, present bytes) puts heads with a cut-short length field in place of every node (inside bstr wrappers: well-formed outside, cut short inside) and as whole inputs; the parent process enforces the per-input watchdog (10 s, kill, fresh worker).",
+ "C18": "The alphabet has grown to 35 operations (Determinism_MC2: every remaining command, most with two different inputs of one kind; inline dependencies reading a file that changes, permuted entries, relative paths with the directory in the key; hierarchical YAML parse of two hierarchies).",
+ "C19": "Every second configuration is built in ONE shared artifacts folder with the children regenerated under the same names; a share is rendered through the ncs/build.py template command line (Kconfig + VERSION files).",
+ "C20": "A share of the VERSION files goes through ncs/build.py template --version_file.",
+}
+
 # id -> dict(level, text, note, technique, design_ref, engine)
 CLAIMS = {
  "C02": dict(
@@ -262,7 +284,7 @@ for p in props:
             "evidence_file": f"/verif/evidence/{i}.json",
             "replay_cmd_template": f"./check {i} --replay {{path}}",
             "engine": c.get("engine", "tlc"),
-            "level_claimed": {"category": c["level"], "text": c["text"], "design_ref": c["design_ref"]},
+            "level_claimed": {"category": c["level"], "text": (c["text"] + " " + EXTRA.get(p["id"], "")).strip(), "design_ref": c["design_ref"]},
             "level_note": c["note"],
             "technique": c["technique"],
         })
